@@ -704,13 +704,13 @@ proof fn lemma_next_step(s0: Seq<u8>, pre: Seq<u8>, c0: Seq<&[u8]>, st: Seq<u8>,
                 let ghost st = self.stream@;
                 let ghost c0 = cont@;
                 proof { lemma_le_at(st, 0); lemma_le_at(st, 2); }
-//@@ after /self\.stream = sp\.1;/
+//@@ after /cont\.push\([^;]*;/
                 proof {
                     let chunk = cont@.last();
                     assert(cont@ == c0.push(chunk));
                     assert(chunk@ =~= st.subrange(4, 4 + u16_at(st, 2)));
-                    assert(self.stream@ =~= st.subrange(4 + u16_at(st, 2), st.len() as int));
-                    lemma_next_step(s0, frame(t as int, d@), c0, st, chunk, self.stream@);
+                    assert(sp.1@ =~= st.subrange(4 + u16_at(st, 2), st.len() as int));
+                    lemma_next_step(s0, frame(t as int, d@), c0, st, chunk, sp.1@);
                 }
 //@@ end
 //@@ endimpl
@@ -826,12 +826,10 @@ pub open spec fn not_nul(c: char) -> bool { c != '\0' }
         assert(b & 0x3f == 2 ==> b & 0x03 == 2) by (bit_vector);
         assert(b & 0x03 == 3 ==> b & 0x3f != 0 && b & 0x3f != 1 && b & 0x3f != 2) by (bit_vector);
     }
-//@@ replace /\|c\| c != '\\0'/ closure annotated with its own (verified) ensures so that the retain contract can see which chars are kept; body unchanged
-|c: char| -> (keep: bool) ensures keep == not_nul(c) { c != '\0' }
-//@@ after /r\.data = &r\.data\[6\.\.\];/
-    proof { assert(r.data@ =~= d0.skip(6)); }
 //@@ before /name\.retain/
     let ghost name0 = name@;
+//@@ replace /name\.retain\(\|c\|([^;]*)\);/ closure annotated with its own (Verus-checked) ensures so that the retain contract can see which chars are kept; the predicate text is re-inserted verbatim
+name.retain(|c: char| -> (keep: bool) ensures keep == not_nul(c) {\g<1> });
 //@@ before /Ok\(\(pos, /
     proof { assert(name@ == name0.filter(|c: char| not_nul(c))); }
 //@@ end
